@@ -853,7 +853,7 @@ func runC05R6(c *eng.Ctx, r *eng.RuleCtx) {
 					}
 					// the library search: idx = slices.IndexFunc(items, func(t) bool { return t.GetId() == id }), -1 when absent
 					if cl, isCl := ast.Unparen(st.Rhs[i]).(*ast.CallExpr); isCl && eng.IsPkgFunc(eng.CalleeOf(info, cl), "slices", "IndexFunc") && len(cl.Args) == 2 && isItems(info, cl.Args[0]) {
-						if fl, isL := ast.Unparen(cl.Args[1]).(*ast.FuncLit); isL && fl.Type.Params != nil && len(fl.Type.Params.List) == 1 && len(fl.Type.Params.List[0].Names) == 1 && len(fl.Body.List) == 1 {
+						if fl, isL := ast.Unparen(resolveLocal(info, f.Decl.Body, cl.Args[1])).(*ast.FuncLit); isL && fl.Type.Params != nil && len(fl.Type.Params.List) == 1 && len(fl.Type.Params.List[0].Names) == 1 && len(fl.Body.List) == 1 {
 							elemObj := info.Defs[fl.Type.Params.List[0].Names[0]]
 							if ret, isR := fl.Body.List[0].(*ast.ReturnStmt); isR && len(ret.Results) == 1 {
 								x, y, eq, isEq := eng.EqAtom(eng.Fact{X: ret.Results[0], Pos: true})
